@@ -12,7 +12,12 @@
             (proposed_fixes/C11-io-line-raw.diff) and the plain branch of SectionOutput.write passes new_line on
             (proposed_fixes/C11-section-newline.diff).
 
-   A text is a sequence of lines, a line a sequence of 1-character strings (no spaces, no newlines inside).
+   A text is a sequence of lines (the text split at "\n" - only a newline starts a new line), a line a sequence of
+   symbols: 1-character strings (no blank, no newline) and stand-ins for the other characters some libraries take for
+   line boundaries ("<CR>", "<VT>", "<FF>", "<FS>", "<GS>", "<RS>", "<NEL>", "<LS>", "<PS>") - ordinary text here.
+   Trailing empty lines = the text ends in newlines: a line writer emits the text proper followed by exactly one
+   newline - either appended to the text as given (n trailing newlines become n + 1: write_line) or with the trailing
+   newlines normalised to one (the raw line writers); nothing in between.
    Outputs: 1 = standard / the only one, 2 = error output of an I/O.                                           *)
 EXTENDS Integers, Sequences, FiniteSets, TLC
 
@@ -48,11 +53,18 @@ AllSpaces(cs) == \A k \in 1..Len(cs) : cs[k] = " "
 \* what arrived (SGR sequences stripped) for a text written by a line writer with indentation ind:
 \* the text's lines, each non-empty one behind exactly ind spaces (raw writers: behind ind spaces or none - they write
 \* "without formatting"), an empty one possibly as blanks, and exactly one newline after the last
+\* n = number of newlines the text ends in; Body = the lines before them
+RECURSIVE TrailingEmpty(_)
+TrailingEmpty(lines) == IF Len(lines) > 1 /\ lines[Len(lines)] = <<>> THEN 1 + TrailingEmpty(SubSeq(lines, 1, Len(lines) - 1)) ELSE 0
+Body(lines) == SubSeq(lines, 1, Len(lines) - TrailingEmpty(lines))
+\* the parts of what arrived (split at newlines): the body's lines, then 1 or n + 1 newlines and nothing after them
+CountOK(lines, got) == /\ Len(got) \in {Len(Body(lines)) + 1, Len(lines) + 1}
+                       /\ got[Len(got)] = <<>>
+                       /\ \A k \in (Len(Body(lines)) + 1)..Len(got) : AllSpaces(got[k])
 LineOK(lines, delta, ind, raw) ==
   LET got == SplitNL(delta, <<>>)
-  IN /\ Len(got) = Len(lines) + 1
-     /\ got[Len(got)] = <<>>
-     /\ \A k \in 1..Len(lines) :
+  IN /\ CountOK(lines, got)
+     /\ \A k \in 1..Len(Body(lines)) :
           IF lines[k] = <<>> THEN AllSpaces(got[k])
           ELSE \/ got[k] = Spaces(ind) \o lines[k]
                \/ (raw /\ got[k] = lines[k])
